@@ -67,6 +67,9 @@ def skeletons(tier, seed):
         mc = 6 if i % 3 else 9
         prog = gen.generate(seed, i, max_choices=mc)
         items.append(("gen/%d/%d" % (seed, i), prog, {}))
+    import random as _r
+    for i in range(60 if tier == "quick" else 1500):
+        items.append(("cyc/%d/%d" % (seed, i), gen.cyclic_prop_program(_r.Random("cyc/%s/%s" % (seed, i))), {}))
     if tier == "thorough":
         for i in range(150):
             prog = gen.generate(seed, 100000 + i, max_choices=24)
